@@ -24,6 +24,9 @@ CHECKS = {
  "C11": ("exploration", "bounded-exhaustive input enumeration (E4) of the real EncryptMessage/DecryptMessage",
          "All 8x8 sender/receiver key agreements in both directions for 5 message types x 3 sizes, all 8x8x8 current/previous receiver combinations, and for one envelope per message kind every single-bit flip, every truncation, every short BlobInfo, field deletions and all 1- and 2-byte envelopes are decrypted by the real code; the oracle is the property's (round trip iff secret and key id match; mutated => error or the original plaintext; never a panic).",
          "Cryptographic strength of X25519/AES-GCM is trusted; multi-byte random mutations are not claimed.", "6/C11", "E4"),
+ "C12": ("exploration", "bounded-exhaustive enumeration (E4) of record shapes, writing flows and sealed-field transplants with byte-level inspection of what reaches Storage.Store",
+         "Every flow that writes records and every hand-built record over all combinations of optional fields is stored with a real AEAD storage wrapper into a recording store; each stored byte string is unwrapped with the same wrapper to learn the secrets it protects, and no secret (private keys in PKCS8 and raw form, node nonce, marshaled creation time) may occur in any byte string handed to Store; loading without or with another wrapper must fail, round trips must be exact, and every sealed field moved into another record of the same type must fail to open.",
+         "Two known findings (retained previous keys stored in clear) are listed in known_findings.json. Substring search on >= 8-byte secrets.", "6/C12", "E4"),
  "C13": ("fault_enumeration", "exhaustive single (thorough: double) deviation enumeration over every storage call of every flow (E3) on the real code",
          "Each of 17 flows is first run fault-free to count its storage calls; then for every call position and each of three error kinds the flow is re-run from a fresh clone with that call failing without effect (thorough: every pair of positions as well). An error must come without credentials / token / certificates / roots; a success must be reflected in storage; a node record created from a token implies the token record is gone; a failed call leaves every existing node record byte-identical.",
          "Storage calls are atomic (message-granular interface, no torn writes). Faults that turn a refusal into a durable success are not judged (the property allows a fully reflected result).", "6/C13", "E3"),
